@@ -22,6 +22,17 @@ def build_parser(grammar_path, k=5, options=()):
     if rc != 0:
         return None, "parol failed: " + out[-1500:]
     os.remove(os.path.join(d, "src", "unused_trait.rs"))
+    psrc = open(os.path.join(d, "src", "parser.rs"), encoding="utf-8").read()
+    if "&mut G<'t>" not in psrc:
+        # the generator decided that the user type carries no lifetime: adapt the stand-ins
+        open(os.path.join(d, "src", "g.rs"), "w").write(
+            "/// Stand-in for the user's grammar type (no lifetime variant).\n"
+            "pub struct G {\n    pub log: Vec<String>,\n}\n"
+            "impl G {\n    pub fn new() -> Self {\n        G { log: Vec::new() }\n    }\n}\n")
+        t = open(os.path.join(d, "src", "g_trait.rs")).read()
+        t = t.replace("user: &'u mut G<'t>,", "user: &'u mut G,\n    _p: core::marker::PhantomData<&'t str>,")
+        t = t.replace("pub fn new(user: &'u mut G<'t>) -> Self {\n        GAuto { user }", "pub fn new(user: &'u mut G) -> Self {\n        GAuto { user, _p: core::marker::PhantomData }")
+        open(os.path.join(d, "src", "g_trait.rs"), "w").write(t)
     with flock("replay-target"):
         rc, out = sh(["cargo", "build", "--offline"], cwd=d, env={"CARGO_TARGET_DIR": os.path.join(BUILD, "replay-target")}, timeout=1800)
         if rc != 0:
@@ -35,14 +46,18 @@ def run_parser(binp, text):
     p = binp + ".input.txt"
     open(p, "w", encoding="utf-8").write(text)
     rc, out = sh([binp, p], timeout=120)
-    verdict, actions, comments = None, [], []
+    verdict, actions, comments, tree = None, [], [], []
     for l in out.splitlines():
         if l.startswith("VERDICT ACCEPT"):
             verdict = True
         elif l.startswith("VERDICT REJECT"):
             verdict = False
+        elif l.startswith("VERDICT PANIC"):
+            verdict = "panic"
+        elif l.startswith("TREE "):
+            tree.append(l[5:])
         elif l.startswith("ACTION "):
             actions.append(l[7:])
         elif l.startswith("COMMENT "):
             comments.append(l[8:])
-    return {"accepted": verdict, "actions": actions, "comments": comments, "rc": rc, "raw": out[-1200:]}
+    return {"accepted": verdict, "actions": actions, "comments": comments, "tree": tree, "rc": rc, "raw": out[-1200:]}
